@@ -107,6 +107,8 @@ def compare_code(c, i, ref, x, co_code_hex=None):
                 o = bad[0]
                 c.fail("colines", "per-unit", "%s co_lines differ at offset %d: CPython line %s, xdis line %s" % (
                     tag, o, ru.get(o, "absent"), xu.get(o, "absent")))
+    if x.get("strcode_bad"):
+        c.fail("decode", "co_code-as-str", "%s %s" % (tag, x["strcode_bad"]))
     if x.get("direct_bad"):
         c.fail("jump", "per-offset-entry-point", "%s %s" % (tag, x["direct_bad"]))
     if x.get("rename_bad"):
@@ -166,6 +168,10 @@ def compare_code(c, i, ref, x, co_code_hex=None):
         if [a["op"] for a in seq_a] != [b["op"] for b in seq_b]:
             continue
         for a, b in zip(seq_a, seq_b):
+            if fmt == "classic" and a["j"] != b["j"] and a["o"] == b["o"]:
+                c.fail("jump", "disassemble_bytes-returned-list|is_jump_target", "%s at %d %s: iteration says is_jump_target=%s, the list returned by "
+                       "disassemble_bytes() %s" % (tag, a["o"], a["n"], a["j"], b["j"]))
+                break
             if a["a"] != b["a"] or a["v"] != b["v"]:
                 c.fail("argval", "disassemble_bytes-returned-list|%s|%s" % (fmt, a["k"]), "%s at %d %s: iteration gives operand %s -> %s, the list returned by "
                        "disassemble_bytes(asm_format=%r) has %s -> %s" % (tag, a["o"], a["n"], a["a"], cn.summary(a["v"]), fmt, b["a"], cn.summary(b["v"])))
@@ -367,6 +373,15 @@ def internal_consistency(c, i, x):
                     c.fail("decode", "two-decoders|operand", "%s at %d: instruction iterator says %s %s, operand unpacker says opcode %d operand %s" % (
                         tag, o, ins["n"], ins["a"], op, a))
                     break
+    ret = x.get("instrs_ret_classic")
+    if isinstance(ret, dict) and "instrs" in ret:
+        mine = dict((a["o"], a) for a in xi)
+        for b in ret["instrs"]:
+            a = mine.get(b["o"])
+            if a is not None and a["op"] == b["op"] and a["j"] != b["j"]:
+                c.fail("jump", "disassemble_bytes-returned-list|is_jump_target", "%s at %d %s: iteration says is_jump_target=%s, the list returned by "
+                       "disassemble_bytes() %s" % (tag, a["o"], a["n"], a["j"], b["j"]))
+                break
     starts = set(b["o"] for b in xi) | {n}
     labels = set(x.get("labels", []))
     targets = set()
